@@ -106,6 +106,15 @@ func fileFixtures(r *rand.Rand, thorough bool) []*fileFixture {
 	hand(handFileOpts{Width: 3, PBLeaves: true, LeafType: 2, PBTsize: 3}, 46)
 	hand(handFileOpts{Width: 2, PBLeaves: true, LeafType: 0, PBTsize: 2}, 39)
 	hand(handFileOpts{Width: 3, PBLeaves: false, HighMode: true}, 42)
+	// every second leaf inlined into an identity CID, next to hashed siblings under the same parent
+	// (an importer that inlines small blocks only): raw and dag-pb leaves
+	hand(handFileOpts{Width: 3, PBLeaves: false, InlineOdd: true}, 44)
+	hand(handFileOpts{Width: 2, PBLeaves: true, LeafType: 2, InlineOdd: true}, 36)
+	// dag-pb children that are described by nothing at all: no block sizes on the parent and no Tsize
+	// on the link (both optional); with and without a declared file size
+	hand(handFileOpts{Width: 3, PBLeaves: true, LeafType: 2, NoBlockSize: true, PBTsize: 2}, 45)
+	hand(handFileOpts{Width: 2, PBLeaves: true, LeafType: 0, NoBlockSize: true, NoFileSize: true, PBTsize: 2}, 34)
+	hand(handFileOpts{Width: 3, PBLeaves: true, LeafType: 2, NoBlockSize: true, PBTsize: 1}, 40)
 	// interior nodes whose Data field is present but empty (content-identical to leaving it out)
 	hand(handFileOpts{Width: 3, PBLeaves: true, LeafType: 2, EmptyData: true}, 49)
 	hand(handFileOpts{Width: 2, PBLeaves: false, EmptyData: true}, 33)
